@@ -110,6 +110,8 @@ var checks = map[string]*check{
 			{Name: "with-traffic-single", Kind: "explore", Scen: "grpcmux_seq", Inst: inst("traffic-single", "traffic-single"), Depths: depths([]int{2}, []int{2, 3}), Budget: budget(2*time.Minute, 10*time.Minute)},
 			{Name: "with-traffic-pairs", Kind: "explore", Scen: "grpcmux_seq", Inst: inst("traffic-pairs", "traffic-pairs"), Depths: depths([]int{1}, []int{1, 2}), Budget: budget(3*time.Minute, 15*time.Minute)},
 			// each established id is dialled a second time while its listener is serving
+			// brokered servers that recycle their connections (MaxConnectionAge 6 s): the same ClientConn is used again 9 s and 18 s later
+			{Name: "recycled-transport", Kind: "explore", Scen: "grpcmux_seq", Inst: inst("recycled", "recycled"), Depths: depths([]int{0}, []int{0, 1}), Budget: budget(2*time.Minute, 10*time.Minute)},
 			// an accepting side that begins to serve 2.5 s / 7 s after Accept (slow service set-up before Serve)
 			{Name: "slow-factory", Kind: "explore", Scen: "grpcmux_seq", Inst: inst("slow-factory", "slow-factory"), Depths: depths([]int{1}, []int{1, 2}), Budget: budget(2*time.Minute, 10*time.Minute)},
 			// caller-chosen ids at the edges of uint32 (0, 1, 2^31, 2^32-1)
